@@ -43,7 +43,16 @@ def gen_histories(tier, seed):
     return hists, stats
 
 
-def run_once(exe, hists, tag, order=None, twice=False):
+def _has_panic(line):
+    return any(part.strip() == "9" for part in line.split("|"))
+
+
+def _strip_ledger(line):
+    head, sep, last = line.rpartition("|")
+    return head.rstrip() if last.strip().startswith("98") else line
+
+
+def run_once(exe, hists, tag, order=None, twice=False, domain="world"):
     """transcript lines (by history position) of one fresh harness process"""
     d = common.run_dir()
     hf = os.path.join(d, "det_%s.txt" % tag)
@@ -53,7 +62,7 @@ def run_once(exe, hists, tag, order=None, twice=False):
             f.write(wg.encode(hists[k]) + "\n")
             if twice:
                 f.write(wg.encode(hists[k]) + "\n")
-    p = subprocess.run([exe, "world", hf], stdout=subprocess.PIPE, text=True, timeout=7200)
+    p = subprocess.run([exe, domain, hf], stdout=subprocess.PIPE, text=True, timeout=7200)
     lines = p.stdout.rstrip("\n").split("\n") if p.stdout else []
     step = 2 if twice else 1
     if p.returncode != 0 or len(lines) != step * len(idx):
@@ -78,9 +87,23 @@ def check_determinism(pid, tier, seed):
     c = run_once(exe, hists, "c", order=order, twice=True)
     violations = []
     crashed = [x is None for x in (a, b, c)]
+    # run D: histories in which nothing panicked, driven from a destructor while a panic raised by the caller unwinds
+    # (ambient thread state must not matter either); a panic in there would abort, hence only panic-free histories
+    calm = [k for k in range(len(hists)) if a is not None and not _has_panic(a[k][0])]
+    dres = run_once(exe, [hists[k] for k in calm], "d", domain="world-unwinding") if calm else []
     if any(crashed):
         violations.append(("the harness process crashed or lost output in run %s" % "ABC"[crashed.index(True)], None, None))
+    elif dres is None:
+        violations.append(("the harness process crashed or lost output in run D (histories driven while a caller's "
+                           "panic unwinds)", None, None))
     else:
+        for j, k in enumerate(calm):
+            if _strip_ledger(dres[j][0]) != _strip_ledger(a[k][0]):
+                violations.append(("the same history gave different transcripts in run A and when driven from a "
+                                   "destructor while a panic raised by the caller unwinds", hists[k],
+                                   dict(run_a=a[k][0][:3000], other=dres[j][0][:3000])))
+                break
+    if not any(crashed) and not violations:
         for k, h in enumerate(hists):
             outs = [("run A", a[k][0]), ("run B (fresh process)", b[k][0]),
                     ("run C (after other worlds, first time)", c[k][0]), ("run C (second time in a row)", c[k][1])]
@@ -178,8 +201,10 @@ def check_determinism(pid, tier, seed):
             theorems=proof["theorems"], axioms=proof["axioms"], proof_failures=proof["failures"],
             correspondence=dict(required="corr:world/faithful", faithful_equal=len(results) - len(diverged),
                                 faithful_diverged=len(diverged)),
-            evaluations=4 * len(hists), distinct=len(distinct), distinct_nontrivial=hashy,
-            rule="every history executed in three processes (A; B fresh; C shuffled order, each history twice in a row) and "
+            evaluations=4 * len(hists) + len(calm), distinct=len(distinct), distinct_nontrivial=hashy,
+            driven_while_a_callers_panic_unwinds=len(calm),
+            rule="every history executed in three processes (A; B fresh; C shuffled order, each history twice in a row), "
+                 "the panic-free ones once more from a destructor while a panic raised by the caller unwinds (D), and "
                  "on the extracted model; all transcripts (results, handles, join rows, event streams, destroyed values, "
                  "ledger) must be identical; non-trivial = " + p["nontrivial"],
             generator=dict(gstats), op_histogram=dict(ophist), saveload=sl_note,
